@@ -165,6 +165,31 @@ def covered(prop: str, cases, timeout=900):
     return res
 
 
+def covered_parts(prop: str, cases, timeout=900):
+    """cases: (id, hstart, [ast_coq per part]).  {id: [bool per part]}: FragCheck.covered_parts h parts (the counter chained over the parts)"""
+    if not cases:
+        return {}
+    files, where = {}, {}
+    shard = max(1, -(-len(cases) // common.NPROC))
+    for k in range(0, len(cases), shard):
+        chunk = cases[k:k + shard]
+        rows = ";\n".join(f"({h}%N, [{'; '.join(parts)}])" for _, h, parts in chunk)
+        name = f"covp_{k // shard:04d}"
+        where[name] = [(c[0], len(c[2])) for c in chunk]
+        files[name] = COVER_HEADER + f"Definition cases : list (N * list cstmts) := [\n{rows}\n].\nEval vm_compute in (map (fun c => covered_parts (fst c) (snd c)) cases).\n"
+    ok, outs, err = common.run_case_files(prop + "_cov", files, timeout=timeout)
+    if not ok:
+        raise RuntimeError("covered case files failed: " + err[-2000:])
+    res = {}
+    for name in sorted(outs):
+        vals = [x == "true" for x in re.findall(r"true|false", common.coq_printed_values(outs[name])[-1])]
+        pos = 0
+        for cid, n in where[name]:
+            res[cid] = vals[pos:pos + n]
+            pos += n
+    return res
+
+
 def parse_option_list(v: str):
     """parse `[Some (3%N, 24%nat, None); None; Some (0%N, 12%nat, Some (5, 3%N))]`"""
     v = v.replace("%N", "").replace("%nat", "").replace("%Z", "")
